@@ -402,3 +402,34 @@ Proof.
   - split; intros [spans H]; discriminate.
   - split; intros [spans H]; discriminate.
 Qed.
+
+(** A grammar free of every class decided before the walk of [check_subword_spaces] can only be
+    rejected by that walk. *)
+Theorem clean_verdict builtins g sh :
+  no_call_variant g = false -> varying_names g = false -> slash_in_name g = false ->
+  duplicate_plain g = false ->
+  unknown_shell g = false -> non_command_for_shell g = false -> duplicate_for_shell g sh = false ->
+  specs_have_command_plain g = true -> cyclic g sh = false ->
+  (exists v, from_grammar builtins g sh = Ok v) \/
+  (exists l r trace, from_grammar builtins g sh = Err (SubwordSpaces l r trace)).
+Proof.
+  intros Hn Hv Hsl Hdp H1 H2 H3 Hsp Hcyc.
+  destruct (from_grammar_total builtins g sh) as [[v Hv']|[e He]]; [left; eauto|right].
+  assert (Hnc : forall spans, e <> NonterminalDefinitionsCycle spans).
+  { intros spans Heq. subst e.
+    assert (cyclic g sh = true) by (apply (cycle_rejected builtins g sh); eauto). congruence. }
+  destruct (dedup_single g Hn Hv) as (command & cspan & Hd & Hin).
+  pose proof (no_slash g command Hsl Hin) as Hs.
+  destruct (duplicate_plain_collect g Hdp) as [defs0 Hc].
+  destruct (get_specializations_ok g sh Hdp H1 H2 H3 Hsp) as (us & fs & Hspecs).
+  pose proof He as He0.
+  rewrite (from_grammar_front builtins g sh _ _ _ Hd Hs Hc), Hspecs in He. cbn [obind fst snd] in He.
+  cbn zeta in He.
+  destruct (resolution_order _) as [ord|e0| |] eqn:Ho; cbn [obind] in He; try discriminate.
+  - match type of He with context [spaces ?t ?f ?x [] false] =>
+      destruct (spaces t f x [] false) as [[]|e'| |] eqn:Es end; cbn [obind] in He; try discriminate.
+    inversion He; subst e'. apply spaces_err_kind in Es. destruct e; try destruct Es.
+    rewrite He0. eauto.
+  - inversion He; subst e0. apply resolution_order_err_cycle in Ho. destruct Ho as [[spans Heq] _].
+    exfalso. eapply Hnc; eauto.
+Qed.
